@@ -572,3 +572,65 @@ def is_has_finalized(S, e):
     if info.get("acc") and isinstance(e, tuple) and e and e[0] == "phi" and (e[1], e[2]) == info["acc"]:
         return True
     return False
+
+
+# ---- the crate's closure-taking wrappers (higher-order table entries) ---------------------------------------------
+
+def check_wrappers(R, F, P, cfg, rule):
+    """The supergraph attaches the closure argument of state()/try_state()/config() with multiplicities taken from a
+    table (engine.graph.HIGHER_ORDER). This rule checks the table against the wrappers' own bodies: the closure is
+    called at most once on every path, never in a loop, and at least one path calls it; `state()` cannot return
+    normally without having called it (its fallback closure diverges)."""
+    from engine import graph, tables
+    R.doc(rule, "the closure-call multiplicities assumed for the crate wrappers state/try_state/config ((1,1), (0,1), (0,1)) agree with their bodies")
+    for w in graph.WRAPPERS:
+        f = F.fn(w)
+        if f is None:
+            if w == "config::config" and not F.has("auto-collect"):
+                continue
+            raise AnchorMissing(w)
+        S = Super(P, f, opaque=set())
+        fcalls = [n for n in S.nodes if n.ci is not None and n.ci["k"] == "call" and n.ci.get("kind") == "wrapper_f" and not n.inlined]
+        loops = [n for n in fcalls if on_cycle(S, n, exclude=("ui", "u"))]
+        paths = tables.normal_paths(S, limit=5000)
+        counts = sorted({len([x for x in p.events if x in fcalls]) for p in paths})
+        mn, mx = graph.HIGHER_ORDER[w]
+        ok = bool(fcalls) and not loops and counts and max(counts) <= 1 and 1 in counts
+        det = "calls of the closure parameter per normal path: %s; in a loop: %s" % (counts, bool(loops))
+        if w == "state::state":
+            # a normal return without the call is impossible: the value goes through unwrap_or_else(<diverging closure>)
+            rv = None
+            for p in paths:
+                rv = p.retval()
+            div = False
+            if isinstance(rv, tuple) and rv and rv[0] in ("call", "ret") and rv[1].endswith("unwrap_or_else"):
+                env = strip(rv[2][1])
+                if isinstance(env, tuple) and env and env[0] == "env" and env[1] in P.fns:
+                    cf = P.fns[env[1]]
+                    div = not any(b["term"]["k"] == "return" and not b["cleanup"] and _reachable_block(cf, i) for i, b in enumerate(cf.blocks))
+            ok = ok and div
+            det += "; fallback of unwrap_or_else diverges: %s" % div
+        R.inst(rule, "wrapper:%s" % w, ok, "%s (table: min %s, max %s): %s" % (w, mn, mx, det), where=f.span, cfg=cfg)
+
+
+def _reachable_block(fn, target):
+    seen = set()
+    st = [0]
+    while st:
+        b = st.pop()
+        if b in seen:
+            continue
+        seen.add(b)
+        if b == target:
+            return True
+        t = fn.blocks[b]["term"]
+        k = t["k"]
+        if k == "goto":
+            st.append(t["target"])
+        elif k == "switch":
+            st.extend(bb for _, bb in t["targets"])
+            st.append(t["otherwise"])
+        elif k in ("call", "drop", "assert"):
+            if t.get("target") is not None:
+                st.append(t["target"])
+    return False
